@@ -114,25 +114,32 @@ def run(ctx):
     import extract
     extract.load_plugins()
     from extractors import c04 as x
+    model_ok = True                  # ties need the model files; the direct oracle (search for a failing input) never does
+    gap_lo, gap_hi = 1, 0
     try:
         ops, bound, _ = x.parse_opcodes()
+        names = dict(ops)
+        disc = {v for _, v in ops}
+        gaps = [b for b in range(bound + 1) if b not in disc]
+        gap_lo, gap_hi = (min(gaps), max(gaps)) if gaps else (1, 0)
+        if gaps and gaps != list(range(gap_lo, gap_hi + 1)):
+            ctx.broken.append("harness assumption: from_u8 gap bytes are no longer one contiguous range")
+            gap_lo, gap_hi = 1, 0
         table, _order, skip, _mx = x.parse_verifier()
+        if sorted(names[n] for n in skip) != [77, 78, 104]:
+            ctx.broken.append("hook assumption: the verifier's skip set is no longer {77, 78, 104} (verif_sites::on_grid hard-codes it)")
     except extract.ExtractError as e:
-        ctx.broken.append(f"translator: {e}")
-        return
-    names = dict(ops)
-    disc = {v for _, v in ops}
-    gaps = [b for b in range(bound + 1) if b not in disc]
-    gap_lo, gap_hi = (min(gaps), max(gaps)) if gaps else (1, 0)
-    if gaps and gaps != list(range(gap_lo, gap_hi + 1)):
-        ctx.broken.append("harness assumption: from_u8 gap bytes are no longer one contiguous range")
-    if sorted(names[n] for n in skip) != [77, 78, 104]:
-        ctx.broken.append("hook assumption: the verifier's skip set is no longer {77, 78, 104} (verif_sites::on_grid hard-codes it)")
-    ok, out = vlib.coq_make(["Base/CaseCheck.vo", "Model/Footprint.vo"])
-    if not ok:
-        ctx.broken.append("coq: model files for the C04 tie do not build")
-        ctx.log(out[-2000:])
-        return
+        model_ok = False
+        if not any(str(e) in b for b in ctx.broken):
+            ctx.broken.append(f"translator: {e}")
+    if model_ok:
+        ok, out = vlib.coq_make(["Base/CaseCheck.vo", "Model/Footprint.vo"])
+        if not ok:
+            ctx.broken.append("coq: model files for the C04 tie do not build")
+            ctx.log(out[-2000:])
+            model_ok = False
+    if not model_ok:
+        ctx.log("model unavailable: running the direct oracle only (search for a failing input)")
     profiles = ["dev"] if ctx.tier == "quick" else ["dev", "release"]
     ncases = 700 if ctx.tier == "quick" else 12000
     tot_eval, distinct = 0, set()
@@ -216,7 +223,7 @@ def run(ctx):
             vmeta.append(d)
             distinct.add("V" + d["spec"])
         eq = ("Definition veq (m o : N) : bool := if o <? 2 then m =? o else if o =? 11 then (m =? 0) || (m =? 2) else m =? 2.")
-        fails, err = vlib.coq_eval_cases("c04v", IMPORTS, "fun x => x", "veq", vcases, shard=120, extra_defs=eq)
+        fails, err = vlib.coq_eval_cases("c04v", IMPORTS, "fun x => x", "veq", vcases, shard=120, extra_defs=eq) if model_ok else ([], None)
         tot_eval += len(vcases)
         if err:
             ctx.broken.append("correspondence C04 (verifier): model evaluation failed")
@@ -263,7 +270,7 @@ def run(ctx):
             fcases.append((q, "true"))
             fmeta.append(s)
             distinct.add("S" + q)
-        fails, err = vlib.coq_eval_cases("c04f", IMPORTS, "foot_ok", "Bool.eqb", fcases, shard=500)
+        fails, err = vlib.coq_eval_cases("c04f", IMPORTS, "foot_ok", "Bool.eqb", fcases, shard=500) if model_ok else ([], None)
         tot_eval += len(fcases)
         if err:
             ctx.broken.append("correspondence C04 (footprint): model evaluation failed")
